@@ -605,18 +605,18 @@ def _with_queries(mesh_strategy, query_strategy):
 
 
 CELLS = [
-    Cell("C18/sphere/boxes", _with_queries(mesh_spec(("box",)), sphere_query()), check_sphere, 250, 10000,
+    Cell("C18/sphere/boxes", _with_queries(mesh_spec(("box",)), sphere_query()), check_sphere, 500, 10000,
          "find_in_sphere on 1-4 rows of boxes: returned set == brute-force selection (margin rule on the radius)"),
-    Cell("C18/sphere/mixed", _with_queries(mesh_spec(_ALL, max_shapes=3), sphere_query()), check_sphere, 60, 2500,
+    Cell("C18/sphere/mixed", _with_queries(mesh_spec(_ALL, max_shapes=3), sphere_query()), check_sphere, 120, 2400,
          "find_in_sphere on meshes with round shapes"),
-    Cell("C18/plane/boxes", _with_queries(mesh_spec(("box",)), plane_query()), check_plane, 250, 10000,
+    Cell("C18/plane/boxes", _with_queries(mesh_spec(("box",)), plane_query()), check_plane, 500, 10000,
          "find_on_plane on rows of boxes: planes through 0-3 vertices, shifted across TOL, non-unit normals"),
-    Cell("C18/plane/mixed", _with_queries(mesh_spec(_ALL, max_shapes=3), plane_query()), check_plane, 60, 2500,
+    Cell("C18/plane/mixed", _with_queries(mesh_spec(_ALL, max_shapes=3), plane_query()), check_plane, 120, 2400,
          "find_on_plane on meshes with round shapes (end faces hold 17 coplanar vertices)"),
-    Cell("C18/round", _with_queries(mesh_spec(_ALL, first_kinds=ROUND_KINDS, max_shapes=3), _round_query), check_round, 80, 3000,
+    Cell("C18/round", _with_queries(mesh_spec(_ALL, first_kinds=ROUND_KINDS, max_shapes=3), _round_query), check_round, 160, 3200,
          "RoundSolidFinder.find_core / find_shell of both end faces of Cylinder, SemiCylinder, Frustum, Elbow, chained "
          "cylinders == vertices on the end plane inside / on the rim circle"),
-    Cell("C18/reorient", block_case(), check_reorient, 80, 3000,
+    Cell("C18/reorient", block_case(), check_reorient, 160, 3200,
          "distorted convex hexahedron x 48 numberings: same points, right-handed, front faces the observer, top faces the "
          "ceiling, result identical for all numberings"),
 ]
